@@ -87,6 +87,20 @@ def shard(ctx, acc):
                 acc.known_hit(ks[0], W.brief_case(case))
             else:
                 acc.violation("seek:" + probs[0][0], probs[:4], case)
+    # 'd' flavours: a provider that reports folder deletions without an id (MockProvider(oidless_folder_trash_events=True),
+    # as Dropbox does) on either side, with the one-sided families incl. name reuse (REUSE) and remove-and-make-again (REMK)
+    for i in F.indices(ctx, plan["cases"] // 6):
+        case = F.make_case(ctx.seed, PROP + "dflav", i, families=("ONE0", "ONE1", "REUSE0", "REUSE1", "REMK0", "REMK1"),
+                           flavours=("do", "od", "dd", "dp", "pd"))
+        if F.classify(case)[0] and not case["family"].startswith("REMK"):
+            acc.inconclusive.append("generator bug: main-family case %d has a hazard" % i)
+            continue
+        probs = run(case, acc)
+        if probs is None:
+            continue
+        acc.count("idless_folder_delete_flavour_cases")
+        if probs:
+            acc.violation("dflav:" + probs[0][0], probs[:4], case)
     # DEEPMK (one-sided): a folder made two or more levels below a folder that the same user renames in the same window, path-id
     # acting side, no sync step in between (see C04 / DESIGN 8.3 for the measurement)
     for i in F.indices(ctx, plan["cases"] // 8):
